@@ -69,7 +69,21 @@ static void checked_topology_check(hwloc_topology_t t, char *notes, size_t notes
 }
 
 /* child: returns the text for the RES line */
+/* open file descriptors of the process: a load (failed or not) followed by destroy must leave none behind; one leaked per load
+ * ends, in a process that loads repeatedly, with loads that differ from the first one ("two loads ... identical") */
+static unsigned count_fds(void) { unsigned n = 0; for (int fd = 0; fd < 4096; fd++) if (fcntl(fd, F_GETFD) != -1) n++; return n; }
+static const char *run_case_child2(FILE *out, const char *id, char comps, unsigned long flags, const char *filters,
+                                   const char *fsroot, const char *cpuid, const char *checks, char *notes, size_t notescap);
 static const char *run_case_child(FILE *out, const char *id, char comps, unsigned long flags, const char *filters,
+                                  const char *fsroot, const char *cpuid, const char *checks, char *notes, size_t notescap) {
+  unsigned before = count_fds();
+  const char *r = run_case_child2(out, id, comps, flags, filters, fsroot, cpuid, checks, notes, notescap);
+  unsigned after = count_fds();
+  if (after != before && !check_aborted)
+    snprintf(notes + strlen(notes), notescap - strlen(notes), " NONDETERMINISTIC:descriptor-leak:%u-open-before-the-loads-%u-after-destroy", before, after);
+  return r;
+}
+static const char *run_case_child2(FILE *out, const char *id, char comps, unsigned long flags, const char *filters,
                                   const char *fsroot, const char *cpuid, const char *checks, char *notes, size_t notescap) {
   char tag[128], tag2[128];
   notes[0] = 0;
